@@ -173,7 +173,8 @@ pub fn random_cfg(rng: &mut Sm, i: usize) -> AgentCfg {
     // a twentieth of the random-agent tick ranges sit at the very top of the price range (products just below 2^32)
     let top_ticks = rng.chance(0.05);
     let top_hi = (PMAX - 1) / ticks[asset];
-    let lo = rng.range(1, 2000) as u32;
+    // ... and a few start at tick 0 (price 0 is a multiple of every tick size)
+    let lo = if rng.chance(0.04) { 0 } else { rng.range(1, 2000) as u32 };
     let sigma = *rng.pick(&[0.1, 1.0, 1.0, 10.0, 10.0]);
     AgentCfg {
         kind,
